@@ -502,8 +502,15 @@ func (c *Ctx) ruleNewIDNonZero(r2 *RuleRep) {
 				continue
 			}
 			bin, ok := iff.Cond.(*ssa.BinOp)
-			if !ok || bin.X != ssa.Value(cv) {
+			if !ok {
 				continue
+			}
+			if bin.X != ssa.Value(cv) {
+				// the same truncation of the same draw written out a second time (`if uint16(n) == 0 {…}; return uint16(n)`)
+				cv2, isCv := bin.X.(*ssa.Convert)
+				if !isCv || cv2.X != cv.X || !types.Identical(cv2.Type(), cv.Type()) {
+					continue
+				}
 			}
 			if k, ok := constInt(bin.Y); !ok || k != 0 {
 				continue
